@@ -1,4 +1,5 @@
 import JoblibModel.ZlibFile
+import JoblibModel.ZFileLegacy
 import JoblibModel.IOUtil
 /-! Driver for C14 (stateless).
 
@@ -15,8 +16,17 @@ Reply    `<load class> <cached-call outcome> <stream>`:
           `unmodelled`; outcome ∈ `recomputed`, `served`, `hang`, `recomputed|served`, `unmodelled`;
           stream = what `BinaryZlibFile(file).read()` delivers: `stream <len>`, `stream hang`,
           `stream exc <Class>` or `stream -` when the file is not zlib/gzip.
+
+Request  `zfile HDR K D21 D22 L`   — the LEGACY Z-file reader `numpy_pickle_compat.read_zfile` / `load_compatibility`
+* `HDR`   hex of the first `min K 22` bytes of the damaged file (`-` if empty): prefix, length field, next byte
+* `K`     length of the damaged file, `L` length of the pickle the intact file holds
+* `D21`, `D22`  what CPython's `zlib.decompress` does on `file[21:]` and on `file[22:]`: `err` or `ok:<n bytes>`
+Reply    `<load class> <cached-call outcome> <read_zfile>`: read_zfile = `zdata <len>` or `exc <Class>`.
+
+Request  `hexint HEX` — `int(bytes.fromhex(HEX), 16)`; reply `int <n>` or `ValueError`.
+
 Malformed requests → `bad-op`. -/
-open JoblibModel JoblibModel.ZlibFile JoblibModel.IOUtil
+open JoblibModel JoblibModel.ZlibFile JoblibModel.IOUtil JoblibModel.ZFileLegacy
 
 def hexVal (c : Char) : Option Nat :=
   if '0' ≤ c ∧ c ≤ '9' then some (c.toNat - '0'.toNat)
@@ -67,8 +77,45 @@ def excName : ExcKind → String
   | .zlibError => "error"
   | .eofError => "EOFError"
 
+def zexcName : ZExc → String
+  | .valueError => "ValueError"
+  | .zlibError => "error"
+  | .assertionError => "AssertionError"
+
+/-- `err` ↦ `zlib.error`, `ok:<n>` ↦ n bytes. -/
+def parseDec (s : String) : Option (Option Nat) :=
+  if s = "err" then some none
+  else match s.splitOn ":" with
+    | ["ok", n] => n.toNat?.map some
+    | _ => none
+
+def handleZfile (hdr k d21 d22 l : String) : String :=
+  match parseHex hdr, k.toNat?, parseDec d21, parseDec d22, l.toNat? with
+  | some hdr, some k, some d21, some d22, some l =>
+    if hdr.length ≠ min k 22 then "bad-op"
+    else
+      let file : Bytes := hdr ++ List.replicate (k - hdr.length) 0
+      let data (n : Nat) : Bytes := (List.range n).map (fun i => UInt8.ofNat (i % 251))
+      let D : Bytes → Option Bytes := fun payload =>
+        if payload.length = k - HEADER_LENGTH then d21.map data
+        else if payload.length = k - (HEADER_LENGTH + 1) then d22.map data
+        else none
+      let c := loadCompat D l file
+      let z := match readZfile D file with
+        | .ok d => "zdata " ++ toString d.length
+        | .error e => "exc " ++ zexcName e
+      className c ++ " " ++ callName (cachedCall c) ++ " " ++ z
+  | _, _, _, _, _ => "bad-op"
+
 def handle (line : String) : String :=
   match tokens line with
+  | ["zfile", hdr, k, d21, d22, l] => handleZfile hdr k d21 d22 l
+  | ["hexint", h] =>
+    match parseHex h with
+    | some b => match pyIntHex b with
+      | some n => "int " ++ toString n
+      | none => "ValueError"
+    | none => "bad-op"
   | "load" :: v :: first :: orig :: k :: r :: l :: e :: ts =>
     match parseHex first, k.toNat?, r.toNat?, l.toNat?, optNat? e, ts.mapM parsePair with
     | some first, some k, some r, some l, some e, some table =>
